@@ -44,8 +44,13 @@ man = {
              'execute them. Exit 2 (ANALYSIS-ERROR) means the analysis could not proceed and is never a pass. '
              'Known findings: /verif/known_findings.json. fix: commits in /repo are listed there as fixed entries. '
              'Thorough tier = quick + the checker self-test of sa/selftest.py (must-fire: test-surviving mutants of '
-             'sa/selftest_corpus.json and the 126 seeded changes under /verif/seeded; must-stay-silent: 19 behaviour-preserving '
-             'transformations of sa/refactor.py), all in memory on the current /repo sources; a self-test disagreement is exit 2.',
+             'sa/selftest_corpus.json and the seeded changes under /verif/seeded whose meta.json records detection by this '
+             'property - 286 from rounds 1-5 by their own property, and those round-6 slips that the check tells apart from the '
+             'correct twin commit in /verif/extensions; must-stay-silent: 19 behaviour-preserving transformations of sa/refactor.py '
+             'and the hand-written behaviour-preserving changes under /verif/benign), all in memory on the current /repo sources; '
+             'a self-test disagreement is exit 2. /verif/extensions is an open benchmark of correct non-tidying commits, many of '
+             'which the checks still report (DESIGN.md 6.3b, extensions/INDEX.md): a change of algorithm or of documented '
+             'behaviour in /repo is expected to need its rules re-confirmed.',
 }
 json.dump(man, open('/verif/MANIFEST.json', 'w'), indent=1)
 print('checks:', [c['property_id'] for c in checks], 'n/a:', len(na))
